@@ -175,7 +175,7 @@ func contents(c *fw.Ctx) []content {
 	add := func(tn string, recs []refpq.Val, sizes []int) {
 		out = append(out, content{tn, recs, sizes})
 	}
-	for _, tn := range []string{"mini", "flat3", "document", "person"} {
+	for _, tn := range []string{"mini", "flat3", "document", "person", "nestrep", "nest16"} {
 		t := sut.Get(tn)
 		add(tn, families.MixedRecords(t, 4), []int{4})
 		add(tn, families.MixedRecords(t, 5), []int{3, 2})
@@ -390,7 +390,7 @@ func run(c *fw.Ctx) {
 		if c.Shard == 0 {
 			c.Count("single_deviations", int64(len(singles)))
 		}
-		if !c.Thorough() && ct.target == "person" {
+		if !c.Thorough() && (ct.target == "person" || ct.target == "nestrep" || ct.target == "nest16") {
 			continue // quick: pairs for the narrow shapes only
 		}
 		red := singleDevs(t, ct, 0, true)
@@ -424,7 +424,7 @@ func run(c *fw.Ctx) {
 // in non-final pages, independently per column, under each codec.
 func longSplits(c *fw.Ctx, emit func(t *sut.Target, ct content, devs []Dev, tagf string, a ...interface{})) {
 	menus := [][]int{{9, 11}, {11, 9}, {13, 7}, {8, 12}, {17, 3}, {10, 10}, {9, 9, 2}, {1, 19}, {16, 4}, {7, 13}}
-	for _, tn := range []string{"mini", "obool", "person"} {
+	for _, tn := range []string{"mini", "obool", "person", "nestrep"} {
 		t := sut.Get(tn)
 		for _, variant := range []string{"mixed", "dense"} {
 			var recs []refpq.Val
